@@ -139,6 +139,10 @@ def run(R):
     _P.check_parallel_coverage(R, "C05-R8", [b for b in prog.bodies.values() if b.crate in ("shared", "datalog") and "::tests::" not in b.key
                                               and (b.file.endswith("join_algorithm.rs") or "/materialisation/" in b.file or b.file.endswith("reasoning.rs"))],
                                whole_call_prefixes=("datalog::", "shared::"), floor=3, what="rayon pipelines in the rule join / parallel strategy")
+    R.rule("C05-R9", "the rule join keeps every partial binding: when the hash table over the partial bindings is built, every binding's "
+                     "index is appended (push) to a bucket - no iteration leaves the loop body without a push, so bindings that share the "
+                     "join values but differ elsewhere all survive - and the probe side iterates over every index of the bucket it hits")
+    r9(R)
     R.rule("C05-R7", "match-or-bind is the last word on a binding row: after a premise position was matched against (or bound in) a row by "
                      "a match-or-bind helper, nothing overwrites entries of that row before it is emitted - a plain insert after the "
                      "test can replace the very value the test just accepted (repeated variable across positions)")
@@ -385,3 +389,49 @@ def r7(R):
                  detail=None if not later else "for a premise that repeats the variable (`?x ?x ?y`) the later insert overwrites the checked binding: the "
                  "premise then matches triples it must not match and unsupported facts are derived")
     R.floor("C05-R7", "match-or-bind call sites", n, 1)
+
+
+def r9(R):
+    from lib import pipeline as P
+    prog = R.prog
+    bt = R.body("C05-R9", "join_algorithm::build_simple_hash_table", crate="shared")
+    if bt is not None:
+        R.saw(bt)
+        lo = P.loops_over(bt, ["final_results"])
+        ls = lo.get("final_results", [])
+        R.ob("C05-R9", "build-loop", "the table is built in a loop over all partial bindings", len(ls) >= 1 and
+             not [n for n in ls[0][2] if n not in ("iter", "into_iter", "deref", "enumerate")], where=bt.where())
+        if ls:
+            h, blocks, names = ls[0]
+            pushes = [c for c in bt.calls() if c.bb in blocks and c.name() == "push"]
+            skip = P.skips_effect(bt, h, blocks, {c.bb for c in pushes}) if pushes else True
+            R.ob("C05-R9", "every-binding-kept", "every partial binding's index is pushed into a bucket (found %d push sites)" % len(pushes), bool(pushes) and not skip,
+                 where=bt.where(pushes[0].ln if pushes else None),
+                 detail=None if (pushes and not skip) else "a bucket that keeps one index per key (entry().or_insert(idx)) drops every further binding with the same "
+                 "join values: their conclusions are never derived and the store stays below the least fixpoint")
+            # what is pushed is the enumeration index of the binding
+    pt = R.body("C05-R9", "join_algorithm::process_triple_fast", crate="shared")
+    if pt is not None:
+        R.saw(pt)
+        gets = [c for c in pt.calls() if c.name() == "get" and c.args]
+        nb = 0
+        for g in gets:
+            o = pt.origin(g.args[0], stop_named=False)
+            if o[0] != "place" or not any(e.get("n") in ("both_bound", "subject_bound", "object_bound") for e in o[1]["p"]):
+                continue
+            nb += 1
+            fld = [e.get("n") for e in o[1]["p"] if e.get("n") in ("both_bound", "subject_bound", "object_bound")][0]
+            # the Some payload is iterated by a loop (all indices)
+            looped = False
+            for h, blocks in pt.loops():
+                drv = P.driver_of(pt, h, blocks)
+                if drv and drv[2] is not None:
+                    names, roots = P.flat(drv[2])
+                    for r in roots:
+                        if r["k"] == "root":
+                            oo = pt.origin({"k": "copy", "pl": {"l": r["local"], "p": [], "t": ""}}, stop_named=False)
+                            if (oo[0] == "place" and oo[1]["l"] == g.dest["l"]) or r["local"] == g.dest["l"]:
+                                if not [n for n in names if n not in ("iter", "into_iter", "deref")]:
+                                    looped = True
+            R.ob("C05-R9", "probe-all:" + fld, "a hit in `%s` is expanded over every index of the bucket" % fld, looped, where=pt.where(g.ln))
+        R.floor("C05-R9", "bucket probes", nb, 3)
